@@ -148,26 +148,25 @@ def computeFeats (win : Nat) : Nat → Nat → St → St
 
 /-! ## live CMN (cmn_live.c) as far as the index model is concerned -/
 
-/-- `cmn_live` on `n` frames of the cepstrum ring starting at `ptr` (the input is modified in place).
-    Every frame passes through the per-frame step once (`ncmn`), with the mean current at that time
-    (`moved`); `skip id` is the data-dependent "zero energy" test of that step, which leaves the frame
-    and the frame count alone (cmn_live.c:103-127) -/
+/-- the loop of `cmn_live` (cmn_live.c:103-134, after the D53 repair) on `n` frames of the cepstrum ring starting at
+    `ptr` (the input is modified in place).  Every frame passes through the per-frame step once (`ncmn`), with the
+    mean current at that time (`moved`); `skip id` is the data-dependent "zero energy" test of that step, which leaves
+    the frame and the frame count alone; as soon as more than `CMN_WIN_HWM` frames have been accumulated the window
+    shifts (`cmn_live_shiftwin`, l.63-79) and the mean moves -/
 def cmnBlock (skip : Nat → Bool) : Nat → Nat → St → St
   | 0, _, s => s
   | n + 1, ptr, s =>
     match s.mfcBuf.getD ptr none with
     | some c =>
+      let s1 : St := { s with mfcBuf := s.mfcBuf.set ptr (some { c with ncmn := c.ncmn + 1, moved := c.moved || s.cmnMoved }),
+                              cmnFrames := if skip c.id then s.cmnFrames else s.cmnFrames + 1 }
       cmnBlock skip n (ptr + 1)
-        { s with mfcBuf := s.mfcBuf.set ptr (some { c with ncmn := c.ncmn + 1, moved := c.moved || s.cmnMoved }),
-                 cmnFrames := if skip c.id then s.cmnFrames else s.cmnFrames + 1 }
+        (if s1.cmnFrames > cmnWinHwm then { s1 with cmnMoved := true, cmnFrames := cmnWin } else s1)
     | none => fail "cmn on an unwritten cepstrum slot" s
 
-/-- `cmn_live` (cmn_live.c:103-134): the block, then the window shift when more than `CMN_WIN_HWM`
-    frames have been accumulated (`cmn_live_shiftwin`, l.63-79) -/
+/-- `cmn_live` (cmn_live.c:103-134) -/
 def cmnLive (skip : Nat → Bool) (s : St) (ptr n : Nat) : St :=
-  if n = 0 then s else
-  let s1 := cmnBlock skip n ptr s
-  if s1.cmnFrames > cmnWinHwm then { s1 with cmnMoved := true, cmnFrames := cmnWin } else s1
+  if n = 0 then s else cmnBlock skip n ptr s
 
 /-- `cmn_live_update` (cmn_live.c:81-101), called by `feat_cmn` at the end of the utterance -/
 def cmnUpdate (s : St) : St :=
@@ -382,27 +381,34 @@ structure FullResp where
   tail : Bool
 deriving DecidableEq, Repr, Inhabited
 
-/-- `acmod_process_full_cep` (acmod.c:404-433): `feat_buf` is replaced when too small, the features are written from
-    index 0 and `n_feat_frame` is *set* to their number -/
+/-- number of frames one batch call delivers: what `fe_process` yields into the `est` slots, plus the frame of
+    `fe_end` when there is one and a slot is left -/
+def fullCount (r : FullResp) : Nat := min r.nvec r.est + min (if r.tail then 1 else 0) (r.est - min r.nvec r.est)
+
+/-- the front-end part of `acmod_process_full_raw` / `_float32` (acmod.c:435-493): the cepstrum buffer is replaced when
+    smaller than the frame-count estimate (and stays that large afterwards), the front end is restarted, the frames of
+    this call are numbered from 0 -/
+def fullFe (s : St) (r : FullResp) : St :=
+  let s := if s.nMfcAlloc < r.est then { s with mfcBuf := List.replicate r.est none, nMfcAlloc := r.est } else s
+  let s := { s with nMfcFrame := 0, mfcOutidx := 0, nextId := 0 }
+  let s := feWrite (min r.nvec r.est) 0 s
+  feWrite (min (if r.tail then 1 else 0) (r.est - min r.nvec r.est)) (min r.nvec r.est) s
+
+/-- `acmod_process_full_cep` (acmod.c:404-433), first half: `feat_buf` is replaced when too small -/
+def fullFeatBuf (s : St) (n : Nat) : St :=
+  if s.nFeatAlloc < n then
+    { s with featBuf := List.replicate n none, nFeatAlloc := n, nFeatFrame := 0, featOutidx := 0 } else s
+
+/-- `acmod_process_full_cep`, second half: the features are written from index 0 and `n_feat_frame` is *set* to
+    their number -/
 def fullCep (win : Nat) (skip : Nat → Bool) (s : St) (n : Nat) : St :=
-  let s := if s.nFeatAlloc < n then
-      { s with featBuf := List.replicate n none, nFeatAlloc := n, nFeatFrame := 0, featOutidx := 0 } else s
-  let r := featLive win skip s 0 n true true 0
+  let r := featLive win skip (fullFeatBuf s n) 0 n true true 0
   let s : St := { r.st with nFeatFrame := r.nfeat }
   if s.nFeatFrame ≤ s.nFeatAlloc then s else fail "assert(n_feat_frame <= n_feat_alloc)" s
 
-/-- `acmod_process_full_raw` / `acmod_process_full_float32` (acmod.c:435-493): the cepstrum buffer is replaced when
-    smaller than the frame-count estimate (and stays that large afterwards), the front end is restarted, the frames of
-    this call are numbered from 0 -/
+/-- `acmod_process_full_raw` / `acmod_process_full_float32` -/
 def fullRaw (win : Nat) (skip : Nat → Bool) (s : St) (r : FullResp) : St :=
-  let s := if s.nMfcAlloc < r.est then { s with mfcBuf := List.replicate r.est none, nMfcAlloc := r.est } else s
-  let s := { s with nMfcFrame := 0, mfcOutidx := 0, nextId := 0 }
-  let nvec := min r.nvec r.est
-  let s := feWrite nvec 0 s
-  let ntail := min (if r.tail then 1 else 0) (r.est - nvec)
-  let s := feWrite ntail nvec s
-  let s := fullCep win skip s (nvec + ntail)
-  { s with nMfcFrame := 0 }
+  { fullCep win skip (fullFe s r) (fullCount r) with nMfcFrame := 0 }
 
 /-! ## search side: `calc_feat_idx`, `acmod_score`, `acmod_advance`, `acmod_rewind` -/
 
